@@ -15,6 +15,13 @@ CLAIMED = {
     },
 }
 
+CLAIMED["C19"] = {
+    "technique": "Coq proof of injectivity (by a decoder) of the automatic tag-name function regenerated from catalog/tag_name.go, proof of the first-segment rule on a hand model of pathTagTitle, exhaustive model/implementation correspondence",
+    "text": "tagName is translated from the current source on every run and proved injective on all titles '/'+segment; pathTagTitle is a hand model compared exhaustively with the implementation over short paths and all single bytes.",
+    "note": "Trusted: Coq kernel, go2coq, extraction + OCaml driver, model of url.PathEscape (validated against the real function every run). Document-level tag assignment is decided by the core-model correspondence (see DESIGN 7, C19).",
+    "design_ref": "7 (C19)",
+}
+
 NOT_YET = {
 }
 
